@@ -469,6 +469,10 @@ def check_gate(p, r):
                 continue
             n += 1
             gate = False
+            # The continuous belt decides "is the head waiting at the exit" from ready_items itself: the stall flag is set by the conveyor's own process
+            # only after it has been woken, so between the head's arrival and that wake-up the flag still says "moving".  There the no-accumulation flag
+            # alone is not a gate (frozen per class: the slotted store's gate is the flag plus one-insert-per-stall).
+            strict = s.ci.module == 'base/belt_store.py'
             # (a) the path conditions imply that the exit is free (no ready item waiting)
             from .. import lin as _lin
             from .common import events_atoms as _ea
@@ -493,11 +497,11 @@ def check_gate(p, r):
                         is_true = truth == pol          # the flag is known to be true on this path?
                         if flag[1] == 'accumulation_mode_indicator' and is_true:
                             gate = True
-                        if flag[1] in ('noaccumulation_mode_on', 'one_item_inserted') and not is_true:
+                        if flag[1] in ('noaccumulation_mode_on', 'one_item_inserted') and not is_true and not strict:
                             gate = True
                 if t == 'self.accumulation_mode_indicator' and pol:
                     gate = True
-                if t in ('self.noaccumulation_mode_on', 'self.one_item_inserted') and pol is False:
+                if t in ('self.noaccumulation_mode_on', 'self.one_item_inserted') and pol is False and not strict:
                     gate = True
             if not gate:
                 bad = pa
@@ -505,7 +509,10 @@ def check_gate(p, r):
             r.fail('C13.R4', key, 'no granting path on a non-empty belt', src(fi.module), fi.node.lineno)
         elif bad:
             r.fail('C13.R4', key, 'on a non-empty belt a space reservation is granted on a path that tests neither the accumulation flag / no-accumulation gate '
-                                  'nor that the exit is free: a stopped non-accumulating belt admits new items', src(fi.module), fi.node.lineno, bad.describe())
+                                  'nor that the exit is free: a stopped non-accumulating belt admits new items' if s.ci.module != 'base/belt_store.py' else
+                                  'on a non-empty belt a space reservation is granted on a path on which the belt is not known to be accumulating and the exit is not '
+                                  'known to be free (`ready_items` empty): a non-accumulating belt whose head item is waiting at the exit admits a new item '
+                                  '(the stall flag alone lags behind the head\'s arrival)', src(fi.module), fi.node.lineno, bad.describe())
         else:
             r.ok('C13.R4', key, f'gate tested on {n} granting path(s)', src(fi.module), fi.node.lineno)
 
